@@ -3,6 +3,8 @@ In QSexact_basis_status / _optimalstatus / _dualstatus every call is preceded, o
 what it consumes (load -> factor -> piz -> dz -> dual check; xbz -> primal check; checks -> status values), the
 feasibility checks are made at the exact zero tolerance, the internal lp is rebuilt before the basis is loaded into it,
 and the verdict out-parameter is set to 1 only under the status flag that means it."""
+import collections
+
 from ..core import walk, strip, is_var, callee, const_of, apath, fields_of, show, short_loc, Flow, AnalysisBroken
 from ..guards import states_at, field_pred
 from ..result import RuleResult, Violation
@@ -125,4 +127,131 @@ def run_subject(prog, rule="R-SUBJECT", floor=3):
                 res.sample({"function": f.name, "parameter": f.params[k][0], "verdict": "never assigned"}, limit=8)
     res.counts["verdict_functions_with_a_basis_parameter"] = n
     res.floor("verdict functions with a basis parameter", n, floor)
+    return res
+
+
+def _reads_fields(f, needles):
+    got = set()
+    for bid in f.live:
+        c = f.blocks[bid].get("c")
+        trees = [c] if c is not None else []
+        for e in f.blocks[bid]["e"]:
+            if e[0] == "D":
+                trees += [x[1] for x in e[1] if x[1] is not None]
+            elif len(e) > 1 and isinstance(e[1], list):
+                trees.append(e[1])
+        for t in trees:
+            for nd in walk(t):
+                if isinstance(nd, list) and nd and nd[0] == "m" and isinstance(nd[2], str):
+                    for n in needles:
+                        if nd[2].endswith(n):
+                            got.add(n)
+    return got
+
+
+def run_basicdual(prog, rule="R-BASICDUAL", floor=3):
+    """a verdict about a basis rests on the basic dual solution of that basis.  In every exact verdict function (the functions of exact.c
+    with a QSbasis * parameter and an int * / char * out-parameter through which nothing but literal 0 and 1 is stored) a store of a non-zero constant through the out-parameter is reached only over
+    paths that (i) pass a call whose callees include the routine that computes the basic dual solution in exact arithmetic
+    (mpq_ILLfct_compute_piz, behind load and factor: R-VERDICT) or (ii) leave, on its non-zero edge, a condition that calls a function which
+    compares the basis statuses (qsbasis::cstat and ::rstat) with the reduced costs and duals of the cached solution
+    (ILLlp_cache::rc, ::pi) - the reduced cost of every basic variable vanishes iff the vector is the basic dual solution.  A test of
+    a primal / dual pair for optimality alone (QSexact_optimal_test) is a statement about the problem, not about the basis: at a
+    degenerate vertex every optimal dual vector passes it, for every primal feasible basis of the vertex."""
+    res = RuleResult(rule, "a non-zero verdict about a caller's basis is stored only behind the exact basic dual solution of that basis, or behind a test "
+                           "that ties the tested dual vector to the basis")
+    target = [f for f in prog.funcs.values() if f.name == "mpq_ILLfct_compute_piz" and f.live is not None]
+    if not target:
+        raise AnalysisBroken("R-BASICDUAL: mpq_ILLfct_compute_piz not found")
+    tkey = target[0].key
+    reach_cache = {}
+
+    def reaches(g):
+        if g.key not in reach_cache:
+            reach_cache[g.key] = tkey in prog.reachable([g.key])
+        return reach_cache[g.key]
+
+    ties = set()
+    for g in prog.funcs.values():
+        if g.live is None or not g.unit.endswith("qsopt_ex/exact.c"):
+            continue
+        if len(_reads_fields(g, ("qsbasis::cstat", "qsbasis::rstat", "ILLlp_cache::rc", "ILLlp_cache::pi"))) == 4 and "int" in g.ret and len(g.blocks) < 40:
+            ties.add(g.key)
+    res.counts["functions_that_tie_a_dual_vector_to_a_basis"] = sorted(prog.funcs[k].name for k in ties)
+    n = 0
+    for f in sorted(prog.funcs.values(), key=lambda x: x.key):
+        if f.live is None or not f.unit.endswith("qsopt_ex/exact.c"):
+            continue
+        if not any("QSbasis *" in p_[1] or "qsbasis *" in p_[2] for p_ in f.params):
+            continue
+        outs = {p_[0] for p_ in f.params if p_[1].replace(" ", "") in ("int*", "int*const", "char*", "char*const")}
+        if not outs:
+            continue
+        stores = []
+        for b, i, e in f.elements():
+            if e[0] == "A" and e[1][1] == "=":
+                l = strip(e[1][2])
+                if isinstance(l, list) and l and l[0] == "u" and l[1] == "*" and is_var(strip(l[2])) and strip(l[2])[2] in outs \
+                        and str(strip(l[2])[1]).startswith("p") and const_of(e[1][3]) not in (None, 0):
+                    stores.append((b["id"], i, e))
+        # a verdict out-parameter: everything the function stores through it is a literal 0 or 1 (status codes and algorithm selectors are
+        # macro constants with other values)
+        allst = collections.defaultdict(list)
+        for b, i, e in f.elements():
+            if e[0] == "A":
+                l = strip(e[1][2])
+                if isinstance(l, list) and l and l[0] == "u" and l[1] == "*" and is_var(strip(l[2])) and strip(l[2])[2] in outs:
+                    r = strip(e[1][3])
+                    allst[strip(l[2])[2]].append(r[1] if (e[1][1] == "=" and isinstance(r, list) and r and r[0] == "n" and not r[2]) else None)
+        verdicts = {v for v, vals in allst.items() if vals and all(x in (0, 1) for x in vals) and 0 in vals and 1 in vals}
+        stores = [(bid, i, e) for bid, i, e in stores if strip(strip(e[1][2])[2])[2] in verdicts]
+        if not stores:
+            continue
+        skeys = {(bid, i) for bid, i, e in stores}
+        bad = {}
+
+        def has_call(t, pred):
+            for nd in walk(t):
+                if isinstance(nd, list) and nd and nd[0] == "c" and nd[1]:
+                    g = prog.resolve(f, nd[1])
+                    if g is not None and pred(g):
+                        return True
+            return False
+
+        def xfer(b, i, e, st):
+            trees = [x[1] for x in e[1] if x[1] is not None] if e[0] == "D" else ([e[1]] if len(e) > 1 and isinstance(e[1], list) else [])
+            if st == (0,) and any(has_call(t, lambda g: g.live is not None and reaches(g)) for t in trees):
+                st = (1,)
+            if (b["id"], i) in skeys and st == (0,):
+                bad.setdefault((b["id"], i), (e, st))
+            return [st]
+
+        def refine(cond, truth, st):
+            if st == (1,):
+                return [st]
+            from ..cond import atoms
+            for l, op, r in atoms(cond, truth):
+                for a, b_, o in ((l, r, op), (r, l, op)):
+                    a0 = strip(a)
+                    if isinstance(a0, list) and a0 and a0[0] == "c" and a0[1] and const_of(b_) == 0 and o == "!=":
+                        g = prog.resolve(f, a0[1])
+                        if g is not None and g.key in ties:
+                            return [(1,)]
+            return [st]
+
+        fl = Flow(prog, f, [(0,)], xfer, refine).run()
+        for (bid, i, e) in stores:
+            n += 1
+            res.obligations += 1
+            res.nontrivial += 1
+            if (bid, i) in bad:
+                res.violations.append(Violation(rule, "%s|verdict stored without the basic dual solution of the basis" % f.name, f.name, short_loc(e[2]),
+                                                "%s is reached over a path that neither computes the exact basic dual solution of the basis (no callee reaches "
+                                                "mpq_ILLfct_compute_piz) nor ties the tested dual vector to the basis (reduced costs of the basic variables): what was "
+                                                "tested is an optimal pair for the problem, which at a degenerate vertex exists for every primal feasible basis of it" % show(e[1])[:40],
+                                                path=fl.witness(bid, bad[(bid, i)][1])))
+            else:
+                res.sample({"function": f.name, "store": "%s %s" % (short_loc(e[2]), show(e[1])[:40]), "verdict": "behind the basic dual solution / a tie test"}, limit=10)
+    res.counts["verdict_stores"] = n
+    res.floor("stores of a non-zero verdict through an out-parameter of a basis verdict function", n, floor)
     return res
